@@ -1,5 +1,5 @@
 (* C13 — Per-block receipts, indices, cumulative gas and bloom are mutually consistent. *)
-From Evm Require Import TxPipe TxPipeProofs.
+From Evm Require Import TxPipe TxPipeExt TxPipeProofs.
 Open Scope Z_scope.
 
 (* For the Ethereum transaction at ANY position of ANY block (items before it: [pre]): if it reached execution
@@ -33,6 +33,41 @@ Theorem C13_block_bloom_is_union : forall (log : Type) (bits : log -> list Z) (r
 Proof. exact block_bloom_is_union. Qed.
 Print Assumptions C13_block_bloom_is_union.
 
+(* each receipt's bloom covers exactly its own logs: abstractly over go-ethereum's bit function ... *)
+Theorem C13_receipt_bloom_is_exact : forall (log : Type) (bits : log -> list Z) (ls : list log) (z : Z),
+  In z (receipt_bloom log bits ls) <-> exists l, In l ls /\ In z (bits l).
+Proof. exact receipt_bloom_is_exact. Qed.
+Print Assumptions C13_receipt_bloom_is_exact.
+
+(* ... and in the receipt model the driver compares with the observed receipt bloom (Model/TxPipeExt.v, a log = the
+   list of bit positions derived from it): a bit is set exactly when one of the receipt's own logs sets it *)
+Theorem C13_receipt_bloom_exact : forall t ca ls r x z,
+  receipt_ext t ca ls r = Some x -> (In z (x_bloom x) <-> exists l, In l ls /\ In z l).
+Proof. exact receipt_bloom_exact. Qed.
+Print Assumptions C13_receipt_bloom_exact.
+
+(* the block bloom of EndBlock is the union of the blooms of the block's receipts *)
+Theorem C13_block_bloom_bits_union : forall rs z,
+  In z (block_bloom_bits rs) <-> exists x, In (Some x) rs /\ In z (x_bloom x).
+Proof. exact block_bloom_bits_union. Qed.
+Print Assumptions C13_block_bloom_bits_union.
+
+(* a created-contract address is reported exactly when the transaction is a creation whose execution was committed
+   without VM error, and it is the CREATE address of (sender, nonce) - for ANY address function create_addr *)
+Theorem C13_contract_address_iff : forall (create_addr : addr -> Z -> addr) s t o ls a,
+  let r := snd (deliver s t o) in
+  (exists x, receipt_ext t (create_addr (t_from t) (t_nonce t)) ls r = Some x /\ x_contract x = Some a)
+  <-> (t_create t = true /\ r_out r = Executed false /\ a = create_addr (t_from t) (t_nonce t)).
+Proof. exact contract_address_iff. Qed.
+Print Assumptions C13_contract_address_iff.
+
+(* only committed executions have a receipt at all *)
+Theorem C13_receipt_iff_executed : forall s t o ls ca,
+  let r := snd (deliver s t o) in
+  (exists x, receipt_ext t ca ls r = Some x) <-> (exists v, r_out r = Executed v).
+Proof. exact receipt_iff_executed. Qed.
+Print Assumptions C13_receipt_iff_executed.
+
 (* non-vacuity: three transactions, the middle one failing after admission: indices 0,1,2; cumulative 21000, -, 21000+30000+25000; logs 0.., 2.. *)
 Example C13_example :
   let s := mkSt (fun a => if a =? 7 then 10^18 else 0) (fun _ => 0) (fun a => a =? 7) (fun _ => false)
@@ -43,3 +78,15 @@ Example C13_example :
                                       Eth (t 2 60000) (mkOut 25000 false 1 [] 0 false)]) in
   map (fun r => (r_tx_index r, r_cum_gas r, r_log_start r)) rs = [(0, 21000, 0); (1, -1, -1); (2, 76000, 2)].
 Proof. vm_compute. reflexivity. Qed.
+
+(* non-vacuity of the receipt extension: a successful creation reports address 77 and the bits of its two logs; the
+   same creation failing in the VM reports no address; a creation failing after admission has no receipt *)
+Example C13_example_receipt :
+  let s := mkSt (fun a => if a =? 7 then 10^18 else 0) (fun _ => 0) (fun a => a =? 7) (fun _ => false)
+                (5 * 10^18) 1000 0 0 0 0 0 0 false false in
+  let t v := mkTx 7 (Some 7) true false 2000 0 0 90000 0 v true 53000 in
+  let rx v o ls := receipt_ext (t v) 77 ls (snd (deliver s (t v) o)) in
+  rx 0 (mkOut 60000 false 2 [] 0 false) [[3; 100; 2047]; [3; 5; 9]] = Some (mkRext (Some 77) [3; 100; 2047; 3; 5; 9]) /\
+  rx 0 (mkOut 90000 true 0 [] 0 false) [] = Some (mkRext None []) /\
+  rx (10^18) (mkOut 60000 false 0 [] 0 false) [] = None.
+Proof. vm_compute. repeat split; reflexivity. Qed.
